@@ -137,7 +137,7 @@ pub fn chunk_alphabet() -> Vec<Vec<u8>> {
 
 pub fn request_contexts() -> Vec<Vec<u8>> {
     [
-        &b""[..], b"\r", b"\n", b"G", b"GET", b"POS", b"POST", b"GET ", b"GET /", b"GET /\xc3", b"GET / ", b"GET /  ",
+        &b""[..], b"\r", b"\n", b"G", b"GET", b"POS", b"POST", b"GET ", b"GET /", b"GET /\xc3", b"GET /\xe2\x82", b"GET /\xf0\x9f\x98", b"GET / ", b"GET /  ",
         b"GET / H", b"GET / HTTP/1.", b"GET / HTTP/1.1", b"GET / HTTP/1.1\r", b"GET / HTTP/1.1\r\n",
     ]
     .iter()
